@@ -266,6 +266,7 @@ func (d *Driver) runInstance(in *Instance) *InstanceResult {
 		return res
 	}
 	opt := Options{Params: in.Params, SuppressSites: map[string]bool{}}
+	noMerge := false
 	timeout := 60000
 	if d.Tier == "thorough" {
 		timeout = 300000
@@ -284,6 +285,8 @@ func (d *Driver) runInstance(in *Instance) *InstanceResult {
 			opt.MaxSteps = v
 		case "timeout_ms":
 			timeout = v
+		case "no_merge":
+			noMerge = v != 0
 		}
 	}
 	solver := in.H.Solver
@@ -296,6 +299,7 @@ func (d *Driver) runInstance(in *Instance) *InstanceResult {
 		return res
 	}
 	defer ex.Close()
+	ex.NoMerge = noMerge
 	if d.debug {
 		last := time.Now()
 		ex.Progress = func(e *Exec) {
